@@ -154,6 +154,8 @@ def conv(tp, raw):
     if tp == 'str':
         return {'str': raw}
     if tp in ('int', 'Optional[int]'):
+        if raw is None and tp == 'Optional[int]':
+            return None
         if isinstance(raw, int):
             return c_int(raw)
         return c_int(int(raw))
@@ -285,7 +287,7 @@ WORDS = ['my', 'var', 'name', 'conn', 'debug', 'mode', 'host', 'port', 'key', 'a
          'limit', 'level', 'path', 'flag', 'count', 'size', 'zone', 'id2', 'v1x']
 PFX = ['PFX_', 'pfx_', 'SVC_', 'cfg_']
 PFX_FREE = ['Pfx-', 'svc', 'Cfg_x-', 'PFX']           # only for SCREAMING_SNAKE / SNAKE classes
-TYPES = ['int', 'int', 'bool', 'str', 'str', 'list[int]', 'list[str]', 'list[str]', 'dict[str,int]', 'dict[str,str]', 'dict[str,str]', 'Optional[int]', 'datetime', 'float']
+TYPES = ['int', 'int', 'bool', 'str', 'str', 'list[int]', 'list[str]', 'list[str]', 'dict[str,int]', 'dict[str,str]', 'dict[str,str]', 'Optional[int]', 'Optional[int]', 'datetime', 'float']
 PRIOS = [None, 'SCREAMING_SNAKE', 'SNAKE', 'CAMEL', 'PASCAL']
 
 
@@ -345,6 +347,12 @@ class Universe:
         r = self.r
         self.n += 1
         n = self.n
+        if as_kw and r.random() < (0.5 if tp == 'Optional[int]' else 0.25):
+            # present-but-falsy keyword values: the keyword still wins
+            falsy = {'int': 0, 'Optional[int]': r.choice([None, None, 0]), 'float': 0.0, 'bool': False, 'str': '',
+                     'list[int]': [], 'list[str]': [], 'dict[str,int]': {}, 'dict[str,str]': {}}
+            if tp in falsy:
+                return {'py': falsy[tp]}
         if tp in ('int', 'Optional[int]'):
             s = str(n) if r.random() < 0.85 else str(-n)
             return ({'py': int(s)} if r.random() < 0.5 else {'py': s}) if as_kw else s
@@ -462,14 +470,32 @@ def gen_class(U, name):
     return c
 
 
-SAFE = re.compile(r'^[A-Za-z0-9_-]+$')            # usable as dotenv key / secrets file name
-ENV_OK = re.compile(r'^[A-Za-z0-9_"{}.-]+$')        # usable as os.environ name (no quote ', backslash, =)
+SAFE = re.compile(r'^[A-Za-z0-9_.:+-]+$')         # usable as dotenv key / secrets file name
+ENV_OK = re.compile(r'^[A-Za-z0-9_"{}.:/+ -]+$')    # usable as os.environ name (no quote ', backslash, =)
+
+
+def near_misses(prefix, fname, words):
+    """names the documented rule (remove '_' and '-', lower-case) does NOT equate with prefix + fname: other
+    punctuation between the words, an extra prefix / suffix, a digit moved, a letter dropped."""
+    pw = [w for w in re.split(r'[_-]', prefix) if w]
+    W = [w.lower() for w in pw] + list(words)
+    sn = '_'.join(W)
+    out = ['.'.join(W), ':'.join(W).upper(), ' '.join(W), '/'.join(W), '+'.join(W), '.'.join(cap(w) for w in W),
+           'x' + sn, sn + '2', sn.upper() + '_X', 'X_' + sn.upper(), sn[:-1], sn.upper()[1:], '_'.join(W) + '.',
+           '7'.join(W), sn.replace('2', '') + '2' if '2' in sn else sn + '0', ' ' + sn.upper()]
+    key = ref_clean(prefix + fname)
+    return [n for n in dict.fromkeys(out) if n and ref_clean(n) != key and ENV_OK.match(n)]
 
 
 def candidate_names(U, classes, extra_prefixes=()):
     """(name, base) pairs that are relevant for the classes of a history."""
     r = U.r
-    out = []
+    out, near, keys = [], [], set()
+    for c in classes:
+        prefixes = {c.get('prefix') or ''} | set(extra_prefixes) | {''} | set(PFX + PFX_FREE)
+        for f in c['fields']:
+            for p in prefixes:
+                keys.add(ref_clean(p + f['name']))
     for c in classes:
         prefixes = {c.get('prefix') or ''} | set(extra_prefixes) | {''}
         for f in c['fields']:
@@ -477,11 +503,14 @@ def candidate_names(U, classes, extra_prefixes=()):
             for p in prefixes:
                 for n in spellings(p, f['name'], b):
                     out.append((n, b))
+                near += [(n, b) for n in near_misses(p, f['name'], b)]
                 ex = f.get('explicit')
                 for n in ([ex] if isinstance(ex, str) else (ex or [])):
                     out.append((p + n, b))
             for n in U.alts[b]:
                 out.append((n, b))
+    # a near-miss of one field must not be a documented spelling of another one
+    out += [(n, b) for n, b in near if ref_clean(n) not in keys]
     seen, uniq = set(), []
     for n, b in out:
         if n not in seen and ENV_OK.match(n):
@@ -533,8 +562,19 @@ def tier_combo(U, c, env, p_field=0.6):
                  if SAFE.match(n) and n not in exact and ref_clean(n) == ref_clean(key)]
         slots = exact + r.sample(reach, min(len(reach), r.choice([0, 1, 2])))
         mask = [r.random() < 0.5 for _ in slots]
-        if not any(mask):
-            mask[r.randrange(len(mask))] = True
+        if r.random() < 0.3:
+            mask = [False] * len(slots)          # no documented source at all ...
+            reach_all = True
+        else:
+            reach_all = False
+            if not any(mask):
+                mask[r.randrange(len(mask))] = True
+        if reach_all or r.random() < 0.4:        # ... but near-miss names are around
+            own = {ref_clean((p or '') + g['name']) for g in c['fields'] for p in [''] + PFX + PFX_FREE}
+            nm = [n for n in near_misses(prefix, f['name'], b) if ref_clean(n) not in own]
+            for n in r.sample(nm, min(len(nm), r.choice([1, 2, 3]))):
+                env[n] = U.value(U.types[b])
+                U.used.append((n, b))
         for n, m in zip(slots, mask):
             if m:
                 env[n] = U.value(U.types[b])
@@ -542,7 +582,7 @@ def tier_combo(U, c, env, p_field=0.6):
             else:
                 env.pop(n, None)
         for n in reach:
-            if n not in slots and r.random() < 0.7:
+            if n not in slots and (reach_all or r.random() < 0.7):
                 env.pop(n, None)
 
 
@@ -617,7 +657,7 @@ def gen_inst(U, ci, c, cands, reload, env=None):
     r = U.r
     o = {'op': 'inst', 'cls': ci, 'reload': reload, 'kwargs': {}}
     for f in c['fields']:
-        if r.random() < 0.2:
+        if r.random() < (0.35 if f['type'] == 'Optional[int]' else 0.2):
             o['kwargs'][f['name']] = U.value(f['type'], as_kw=True)
     x = r.random()
     if x < 0.2:
@@ -668,6 +708,34 @@ def gen_history(r, hid, long=False):
             n = r.choice(cands)[0]
         ops.append({'op': 'del', 'k': n}); cur.pop(n, None)
 
+    curf = {'file': {}, 'dir': {}}            # contents after 'write' ops (U.files / U.dirs keep the initial ones)
+
+    def do_write():
+        """rewrite a dotenv file / a secrets directory that already exists: drop, change and add variables"""
+        kind = r.choice(['file', 'file', 'dir'])
+        store = U.files if kind == 'file' else U.dirs
+        if not store:
+            return None
+        fid = r.choice(sorted(store))
+        old = curf[kind].get(fid, store[fid])
+        new = []
+        for n, v in old:
+            x = r.random()
+            if x < 0.3:
+                continue                                            # variable removed
+            b = next((bb for nn, bb in cands if nn == n), None)
+            new.append([n, U.value(U.types[b]) if b is not None and x < 0.8 else v])   # value changed / kept
+        safe = [x for x in cands if SAFE.match(x[0])]
+        for _ in range(r.choice([0, 1, 2])):
+            n, b = r.choice(safe)
+            if all(n != k for k, _ in new):
+                new.append([n, U.value(U.types[b])]); U.used.append((n, b))
+        if not new:
+            n, b = r.choice(safe); new.append([n, U.value(U.types[b])])
+        curf[kind][fid] = new
+        ops.append({'op': 'write', 'kind': kind, 'id': int(fid), 'content': new})
+        return kind, int(fid)
+
     def do_rename():
         """delete A and add B (the number of variables is unchanged), A preferably a variable a field can reach"""
         names = [n for n, _ in cands]
@@ -706,11 +774,21 @@ def gen_history(r, hid, long=False):
     n_ops = r.choice([3, 5, 7, 9, 11] if not long else [14, 20, 28])
     for _ in range(n_ops):
         x = r.random()
-        if x < 0.27:
+        if x < 0.25:
             do_set()
-        elif x < 0.4:
+        elif x < 0.37:
             do_del()
-        elif x < 0.55 and defined:
+        elif x < 0.5 and defined and (U.files or U.dirs):
+            w = do_write()
+            if w and r.random() < 0.8:
+                ci = r.choice(sorted(defined))
+                o = gen_inst(U, ci, classes[ci], cands, reload=True, env=cur)
+                if w[0] == 'file':
+                    o['env_file'] = [w[1]] + ([x for x in o['env_file'] if x != w[1]] if isinstance(o.get('env_file'), list) and r.random() < 0.5 else [])
+                else:
+                    o['secrets'] = [w[1]] + ([x for x in o['secrets'] if x != w[1]] if 'secrets' in o and r.random() < 0.5 else [])
+                ops.append(o)
+        elif x < 0.62 and defined:
             do_rename()
             if r.random() < 0.7:
                 ci = r.choice(sorted(defined))
@@ -800,9 +878,13 @@ def coq_args(o, h):
 def coq_history(h):
     """Gallina term (pstr): the encoded trace of the history from the initial state."""
     lets, ops = [], []
-    for o in h['ops']:
+    T = fs_timeline(h)
+    classes = {o['id']: o['cls'] for o in h['ops'] if o['op'] == 'class'}
+    for i, o in enumerate(h['ops']):
+        if o['op'] == 'write':
+            continue
         if o['op'] == 'class':
-            lets.append('let c%d := %s in' % (o['id'], coq_cls(o['cls'], h)))
+            lets.append('let c%d := %s in' % (o['id'], coq_cls(o['cls'], T[i])))
             if o['cls'].get('reload_env'):
                 ops.append('OpReloadEnv')
         elif o['op'] == 'set':
@@ -810,7 +892,11 @@ def coq_history(h):
         elif o['op'] == 'del':
             ops.append('OpDel %s' % coq_str(o['k']))
         else:
-            ops.append('OpInst c%d %s' % (o['cls'], coq_args(o, h)))
+            cdef = classes[o['cls']]
+            if 'secrets' not in o and cdef.get('secrets'):
+                # Meta.secrets_dir is the default of _secrets_dir and is READ at instantiation: current contents
+                o = dict(o, secrets=cdef['secrets'])
+            ops.append('OpInst c%d %s' % (o['cls'], coq_args(o, T[i])))
     return '(%s show_history %s %s)' % (' '.join(lets), coq_env(sorted(h['os0'].items())), coq_list(ops))
 
 
@@ -866,7 +952,9 @@ def model_ops(h):
     """indices of model trace steps per harness op (class ops produce a step only with reload_env)."""
     idx, k = [], 0
     for o in h['ops']:
-        if o['op'] == 'class':
+        if o['op'] == 'write':
+            idx.append(None)
+        elif o['op'] == 'class':
             if o['cls'].get('reload_env'):
                 idx.append(k); k += 1
             else:
@@ -888,15 +976,32 @@ def os_timeline(h):
     return out
 
 
-def inst_files(h, cls, o):
+def fs_timeline(h):
+    """Per op index: contents of the dotenv files / secret dirs as seen by that op ('write' ops rewrite them), and
+    per class the file contents at its class statement (Meta.env_file is read when the class is created)."""
+    files, dirs, cls_files, out = dict(h['files']), dict(h['dirs']), {}, []
+    for o in h['ops']:
+        if o['op'] == 'write':
+            (files if o['kind'] == 'file' else dirs)[str(o['id'])] = o['content']
+        elif o['op'] == 'class':
+            cls_files[o['id']] = dict(files)
+        out.append({'files': dict(files), 'dirs': dict(dirs), 'cls_files': dict(cls_files)})
+    return out
+
+
+def inst_files(h, cls, o, i=None):
+    """(secret dir contents, dotenv file contents) in effect for instantiate op o of history h"""
+    if i is None:
+        i = next(k for k, x in enumerate(h['ops']) if x is o)
+    v = fs_timeline(h)[i]
     secrets = o['secrets'] if 'secrets' in o else (cls.get('secrets') or [])
     if 'env_file' not in o:
-        dot = cls.get('env_file') or []
+        src, dot = v['cls_files'][o['cls']], cls.get('env_file') or []
     elif o['env_file'] is False:
-        dot = []
+        src, dot = v['files'], []
     else:
-        dot = o['env_file']
-    return [h['dirs'][str(i)] for i in secrets], [h['files'][str(i)] for i in dot]
+        src, dot = v['files'], o['env_file']
+    return [v['dirs'][str(k)] for k in secrets], [src[str(k)] for k in dot]
 
 
 def f22_field(cls, o, f):
@@ -984,7 +1089,7 @@ def check_history(ctx, h, impl, trace, pristine=None, stream='history'):
         ctx.broken_tie('model os_env differs from os.environ at the end of the history', {'history': strip_history(h)})
     last_inst = max(i for i, o in enumerate(h['ops']) if o['op'] == 'inst')
     for i, (o, r) in enumerate(zip(h['ops'], res)):
-        if o['op'] in ('set', 'del'):
+        if o['op'] in ('set', 'del', 'write'):
             continue
         where = {'kind': 'history', 'history': strip_history(h), 'op_index': i}
         if o['op'] == 'class':
@@ -1032,7 +1137,7 @@ def check_history(ctx, h, impl, trace, pristine=None, stream='history'):
                     ctx.hist('known_region', F22_ID)
                 else:
                     ctx.violation('%s(_reload=True): %s' % (cls['name'], bad), where)
-            if i == last_inst and pristine is not None:
+            if i == last_inst and pristine is not None and pristine_comparable(h):
                 pr = pristine['results'][-1]
                 same = {k: v for k, v in pr.items() if k != 'op'} == {k: v for k, v in r.items() if k != 'op'}
                 if not same:
@@ -1064,7 +1169,18 @@ def pristine_payload(h):
     last = max(i for i, o in enumerate(h['ops']) if o['op'] == 'inst')
     o = h['ops'][last]
     cdef = [x for x in h['ops'] if x['op'] == 'class' and x['id'] == o['cls']][0]
-    return {'os0': timeline[last], 'files': h['files'], 'dirs': h['dirs'], 'ops': [cdef, o]}
+    v = fs_timeline(h)[last]
+    return {'os0': timeline[last], 'files': v['files'], 'dirs': v['dirs'], 'ops': [cdef, o]}
+
+
+def pristine_comparable(h):
+    """False when the final class's Meta.env_file content was rewritten after the class statement (a class created
+    afresh reads the new content; the old class keeps what it read - not a history effect of the Env caches)."""
+    last = max(i for i, o in enumerate(h['ops']) if o['op'] == 'inst')
+    o = h['ops'][last]
+    cdef = [x for x in h['ops'] if x['op'] == 'class' and x['id'] == o['cls']][0]['cls']
+    v = fs_timeline(h)[last]
+    return all(v['cls_files'][o['cls']][str(k)] == v['files'][str(k)] for k in (cdef.get('env_file') or []))
 
 
 F22_ID = 'F37-env-prefix-tuple-names'
